@@ -100,6 +100,10 @@ static void exec_plan(const Scenario *sc, const Plan *p, RunResult *r)
 
 static void print_result(const char *tag, uint64_t idx, uint64_t seed, const Plan *p, const RunResult *r)
 {
+	if (getenv("GMSIM_DUMP_STDERR")) {       /* debugging aid: what the library wrote to fd 2 during the run */
+		size_t n; const uint8_t *t = cap_map(1, &n);
+		fprintf(g_out, "STDERR-BEGIN (%zu bytes)\n", n); fwrite(t, 1, n > 20000 ? 20000 : n, g_out); fprintf(g_out, "\nSTDERR-END\n");
+	}
 	char leak[400] = "";
 	fprintf(g_out, "%s idx=%" PRIu64 " seed=%" PRIu64 " scn=%s ok=%d fp=%016" PRIx64 " il=%016" PRIx64
 		" fid=%016" PRIx64 " nt=%d ntid=%016" PRIx64 " steps=%" PRIu64 " sw=%" PRIu64 " simns=%" PRId64 " twinfail=%d",
@@ -244,11 +248,15 @@ int main(int argc, char **argv)
 		sim_set_phase("replay");
 		fprintf(g_out, "BEGIN idx=0 seed=%" PRId64 "\n", p.seed);
 		exec_plan(sc, &p, &r);
+		if (getenv("GMSIM_DUMP_WIRE")) { FILE *wf = fopen("/tmp/wire1.bin", "w"); fwrite(g_conns[0].pipe[0].sent, 1, g_conns[0].pipe[0].sent_len, wf); fclose(wf); }
 		if (g_leak_mode) leak_scan_now(0);
 		print_result("RUN", 0, (uint64_t)p.seed, &p, &r);
 		if (g_sim.log) { fclose(g_sim.log); g_sim.log = NULL; }
 		if (twice) {
+			if (logpath) { static char lp2[600]; snprintf(lp2, sizeof(lp2), "%s.2", logpath); g_sim.log = fopen(lp2, "w"); }
 			exec_plan(sc, &p, &r2);
+			if (getenv("GMSIM_DUMP_WIRE")) { FILE *wf = fopen("/tmp/wire2.bin", "w"); fwrite(g_conns[0].pipe[0].sent, 1, g_conns[0].pipe[0].sent_len, wf); fclose(wf); }
+			if (g_sim.log) { fclose(g_sim.log); g_sim.log = NULL; }
 			if (r2.fp != r.fp || r2.violated != r.violated)
 				fprintf(g_out, "NONDET idx=0 fp1=%016" PRIx64 " fp2=%016" PRIx64 "\n", r.fp, r2.fp);
 		}
